@@ -48,6 +48,8 @@ func main() {
 		runCatalogue()
 	case "demo-scan-short":
 		demoScanShort()
+	case "pool":
+		runPool(seed)
 	case "rpc":
 		runRPC(seed, tier)
 		runRPCSender(seed, tier)
